@@ -7,11 +7,11 @@ CONSTANTS
   PhysPage <- MCPhys
   Bufs <- MCBufs1
   Ctxs = {1}
-  Queues = {1}
-  Ranges <- MCRangesT
-  KWrites <- MCKWritesT
+  Queues = {1, 2}
+  Ranges <- MCRangesK
+  KWrites <- MCKWritesK
   MaxCmds = 3
   Contract = TRUE
-  Deviations = {"flush_rsp_no_complete"}
+  Deviations = {}
 INVARIANTS TypeOK CompleteOnceAfterAll RoundTrip OutsideUntouched NoHang
 CHECK_DEADLOCK FALSE
